@@ -133,10 +133,10 @@ Proof. intros H. rewrite import_export_clp by exact H. reflexivity. Qed.
 
 (* ---------- x/dispensation ---------- *)
 Lemma key_ltb_irrefl k : key_ltb k k = false.
-Proof. destruct k as [[a b] c]. unfold key_ltb, k_name, k_type, k_rcp; cbn. rewrite !Z.ltb_irrefl, !Z.eqb_refl. reflexivity. Qed.
+Proof. destruct k as [[a b] c]. unfold key_ltb, k_name, k_type, k_raw; cbn. rewrite !Z.ltb_irrefl, !Z.eqb_refl. reflexivity. Qed.
 Lemma key_ltb_asym a b : key_ltb a b = true -> key_ltb b a = false.
 Proof.
-  destruct a as [[a1 a2] a3], b as [[b1 b2] b3]. unfold key_ltb, k_name, k_type, k_rcp; cbn.
+  destruct a as [[a1 a2] a3], b as [[b1 b2] b3]. unfold key_ltb, k_name, k_type, k_raw; cbn.
   destruct (Z.ltb_spec a1 b1), (Z.ltb_spec b1 a1), (Z.eqb_spec a1 b1), (Z.eqb_spec b1 a1),
            (Z.ltb_spec a2 b2), (Z.ltb_spec b2 a2), (Z.eqb_spec a2 b2), (Z.eqb_spec b2 a2),
            (Z.ltb_spec a3 b3), (Z.ltb_spec b3 a3); cbn; try reflexivity; try discriminate; lia.
@@ -191,14 +191,14 @@ Proof. intros H. rewrite import_export_disp by exact H. reflexivity. Qed.
 
 (* the table order is what the model's own updates maintain *)
 Lemma key_ltb_iff a b : key_ltb a b = true <->
-  (k_name a < k_name b \/ (k_name a = k_name b /\ (k_type a < k_type b \/ (k_type a = k_type b /\ k_rcp a < k_rcp b)))).
+  (k_name a < k_name b \/ (k_name a = k_name b /\ (k_type a < k_type b \/ (k_type a = k_type b /\ k_raw a < k_raw b)))).
 Proof. unfold key_ltb. rewrite orb_true_iff, andb_true_iff, orb_true_iff, andb_true_iff, !Z.ltb_lt, !Z.eqb_eq. reflexivity. Qed.
 Lemma key_ltb_trans a b c : key_ltb a b = true -> key_ltb b c = true -> key_ltb a c = true.
 Proof. rewrite !key_ltb_iff. lia. Qed.
 Lemma key_ltb_total a b : a <> b -> key_ltb a b = false -> key_ltb b a = true.
 Proof.
   intros Hne Hf. apply key_ltb_iff. assert (Hn : ~ (key_ltb a b = true)) by congruence. rewrite key_ltb_iff in Hn.
-  destruct a as [[a1 a2] a3], b as [[b1 b2] b3]. unfold k_name, k_type, k_rcp in *; cbn [fst snd] in *.
+  destruct a as [[a1 a2] a3], b as [[b1 b2] b3]. unfold k_name, k_type, k_raw in *; cbn [fst snd] in *.
   assert (a1 <> b1 \/ a2 <> b2 \/ a3 <> b3).
   { destruct (Z.eq_dec a1 b1) as [->|]; [|auto]. destruct (Z.eq_dec a2 b2) as [->|]; [|auto]. destruct (Z.eq_dec a3 b3) as [->|]; [|auto]. congruence. }
   lia.
